@@ -159,7 +159,11 @@ def init_walkers(ctx):
                 orbs = [x for x in subterms(t) if x.op == "list" and len(x.args) == 1]
                 ret_orb = strip_wrappers(orbs[0].args[0]) if orbs else None
                 m = m_binop(ret_orb, "+") if ret_orb is not None else None
-                core = strip_wrappers(m[0]) if m is not None else ret_orb
+                if m is not None:      # orbitals + 0.0j  (either order)
+                    non_const = [strip_wrappers(x_) for x_ in m if strip_wrappers(x_).op != "const"]
+                    core = non_const[0] if len(non_const) == 1 else strip_wrappers(m[0])
+                else:
+                    core = ret_orb
                 tested = accepted[0]
                 dets = [x for x in subterms(tested) if x.op == "call" and
                         (func_name(x) or "").endswith("linalg.det")]
